@@ -985,23 +985,6 @@ def generate(bdir, t_number):
         raise TieBroken("guard:f_export_uid", "error(\"Illegal to export uid 0\") not found exactly once")
     L.append("/-- f_export_uid: when the error is raised -/\n"
              "def exportErrors (curEuid : Bool) : Bool := " + conj(sites[0][1], {"current_object->euid": "curEuid"}, "f_export_uid:error"))
-    branch = None
-    for n, _ in walk(f):
-        if n.get("kind") == "IfStmt" and off(n) > off(sites[0][0]) and len(kids(n)) == 3:
-            branch = n
-            break
-    if branch is None:
-        raise TieBroken("guard:f_export_uid", "the if/else on the target's euid was not found")
-    c, th, el = kids(branch)
-    L.append("/-- f_export_uid: when the target is refused (result 0) -/\n"
-             "def exportRefusesTarget (tgtEuid : Bool) : Bool := " + tr(c, {"ob->euid": "tgtEuid"}, "f_export_uid:target"))
-    th_t = [cx(n) for n, _ in walk(th) if n.get("kind") == "BinaryOperator" and n.get("opcode") == "="]
-    el_t = [cx(n) for n, _ in walk(el) if n.get("kind") == "BinaryOperator" and n.get("opcode") == "="]
-    L.append("/-- f_export_uid: assignments of the refusing branch / of the other branch -/\n"
-             "def exportRefuseAssign : List String := [" + ", ".join(lean_str(t) for t in th_t) + "]\n"
-             "def exportAssign : List String := [" + ", ".join(lean_str(t) for t in el_t) + "]")
-    L.append("/-- f_export_uid: every write to a uid / euid field in the function -/\n"
-             "def exportUidWrites : List String := [" + ", ".join(lean_str(t) for t in assignments(f, ("uid", "euid"))) + "]")
 
     # ---- f_seteuid ----------------------------------------------------------------------------------------------
     f = ast_function(bdir, "lib/efuns/uids.c", "f_seteuid")
@@ -1012,11 +995,6 @@ def generate(bdir, t_number):
     calls = sorted((off(n), cx(kids(n)[0]) if cx(kids(n)[0]) == "bad_arg" else cx(n)) for n, _ in walk(f)
                    if n.get("kind") == "CallExpr" and
                    cx(kids(n)[0]) in ("apply_master_ob", "safe_apply_master_ob", "apply", "safe_apply", "bad_arg", "add_uid"))
-    L.append("/-- f_seteuid: its if-conditions (MASTER_APPROVED expanded; T_NUMBER = %d), the calls that matter, and every\n"
-             "    write to an euid field, each list in source order -/\n" % t_number +
-             "def seteuidIfs : List String := [" + ", ".join(lean_str(t) for t in shape) + "]\n"
-             "def seteuidCalls : List String := [" + ", ".join(lean_str(t) for _, t in calls) + "]\n"
-             "def seteuidEuidWrites : List String := [" + ", ".join(lean_str(t) for t in assignments(f, ("uid", "euid"))) + "]")
     # the refusal condition, semantically
     refusal = None
     for _, n in ifs:
